@@ -211,6 +211,8 @@ def replay(b: dict) -> dict:
 
 def main(tier: str) -> int:
     if core.replay_arg():
+        if json.loads(open(core.replay_arg()).read())["stimulus"].get("bits"):
+            return core.replay_file(core.replay_arg(), PROP, "c07b", "IndexMaps_Bits_Trace")
         return core.replay_file(core.replay_arg(), PROP, "c07", "IndexMaps_Trace")
     out = Outcome(PROP, tier)
     shp = shapes(tier)
@@ -261,6 +263,15 @@ def main(tier: str) -> int:
     out.notes["shapes"] = [list(s) for s in shp]
     out.notes["behaviours"] = len(behaviours)
 
+    # power-of-two shapes with up to 2^62 cells: subscripts as bit strings (IndexMaps_Bits)
+    pairs = ("{<<<<20, 20, 20>>, <<30, 30>>>>, <<<<30, 30>>, <<20, 20, 20>>>>, <<<<31, 29>>, <<7, 53>>>>, <<<<55, 3, 2>>, <<2, 58>>>>, "
+             "<<<<15, 15, 15, 15>>, <<60>>>>, <<<<62>>, <<31, 31>>>>}")
+    rb = tla.run_tlc("IndexMaps_Bits_Gen", "SPECIFICATION Spec\nINVARIANT RoundTrip\nINVARIANT Injective\n", defs={"Pairs": pairs},
+                     timeout=1500)
+    out.add_tlc(rb)
+    out.notes["bit_string_behaviours"] = len(rb.json)
+    core.pipeline(out, "c07b", rb.json, "IndexMaps_Bits_Trace", lock_mode="superset",
+                  site_of=lambda tr, k: "sptensor.reshape(2^k modes)")
     core.pipeline(out, "c07", behaviours, "IndexMaps_Trace",
                   site_of=lambda tr, k: site_of(tr["init"]["kind"] if k == 1 else
                                                 tr["ev"][k - 2]["ret"]["kind"], tr["ev"][k - 1]["op"]))
